@@ -110,11 +110,20 @@ type server struct {
 	hdrName   string  // header configuration of the transports (hdrcfg.go)
 	hdr       hdrMaps // the map objects the transports were configured with
 	lastDrift string
+	// the server's *ast.Schema (its own, loaded when the server was built) and its structural hashes then
+	es         *ast.Schema
+	esHash     map[string]uint64
+	lastSDrift string
 }
+
+// schemaDrift: which definitions of the server's schema are no longer what they were when the server was built
+func (s *server) schemaDrift() string { return schemaDiff(s.esHash, schemaHashes(s.es)) }
 
 func newServer(qcKind, apqKind, hdrName string, seedAPQ map[string]string) *server {
 	s := &server{pre: &observer{name: "pre"}, post: &observer{name: "post"}, hdrName: hdrName, hdr: mkHdrCfg(hdrName)}
-	s.h = handler.New(echoSchema{})
+	s.es = loadSchema()
+	s.esHash = schemaHashes(s.es)
+	s.h = handler.New(echoSchema{s.es})
 	tg, tp, tf, tq := s.hdr.transports()
 	s.h.AddTransport(tg)
 	s.h.AddTransport(tp)
@@ -134,6 +143,7 @@ func newServer(qcKind, apqKind, hdrName string, seedAPQ map[string]string) *serv
 	s.h.Use(s.pre)
 	s.h.Use(extension.AutomaticPersistedQuery{Cache: s.apq})
 	s.h.Use(s.post)
+	s.h.Use(extension.Introspection{})
 	return s
 }
 
@@ -254,6 +264,7 @@ type record struct {
 	docsBad  []string
 	unlawful []string
 	drift    string // the transports' configuration changed while serving ("" = no)
+	sdrift   string // the server's schema changed while serving ("" = no)
 	cfg      string
 }
 
@@ -282,6 +293,9 @@ func (s *server) sequential(sid, idx int, q *rq, cfg string) *record {
 	r.unlawful = append(s.qc.unlawful, s.apq.unlawful...)
 	if d := s.configDrift(); d != s.lastDrift { // reported on the request that changed it
 		r.drift, s.lastDrift = d, d
+	}
+	if d := s.schemaDrift(); d != s.lastSDrift { // a request only READS the schema
+		r.sdrift, s.lastSDrift = d, d
 	}
 	return r
 }
@@ -324,7 +338,7 @@ func runGroup(sid int, cfgName string, gr group, pre []int) {
 	srv.qc.take()
 	bad := srv.qc.changedDocs()
 	unl := append(srv.qc.unlawful, srv.apq.unlawful...)
-	drift := srv.configDrift()
+	drift, sdrift := srv.configDrift(), srv.schemaDrift()
 	ord := "fifo"
 	if gr.lifo {
 		ord = "lifo"
@@ -340,7 +354,7 @@ func runGroup(sid int, cfgName string, gr group, pre []int) {
 			r.q.tags = append(r.q.tags, "parked")
 		}
 		if i == len(gr.reqs)-1 {
-			r.docsBad, r.unlawful, r.drift = bad, unl, drift
+			r.docsBad, r.unlawful, r.drift, r.sdrift = bad, unl, drift, sdrift
 		}
 		emit(r, orc, "sched")
 	}
@@ -456,6 +470,9 @@ func emit(r *record, orc response, mode string) {
 	}
 	if r.drift != "" {
 		extra += " config-mutated:" + hx(r.drift)
+	}
+	if r.sdrift != "" {
+		extra += " schema-mutated:" + hx(r.sdrift)
 	}
 	if extra == "" {
 		extra = "-"
@@ -669,7 +686,7 @@ func main() {
 		srv.qc.take()
 		bad := srv.qc.changedDocs()
 		unl := append(srv.qc.unlawful, srv.apq.unlawful...)
-		drift := srv.configDrift()
+		drift, sdrift := srv.configDrift(), srv.schemaDrift()
 		fmt.Fprintf(out, "S\t%d\t%s\tconcurrent\n", 100000+base+b, cfgName)
 		for i, q := range qs {
 			runtime.GC()
@@ -677,7 +694,7 @@ func main() {
 			orc := newServer("none", "map", hdrName, seedAPQ).serve(q)
 			r := &record{sid: 100000 + base + b, idx: i, q: q, resp: resps[i], obs: "-", cfg: cfgName}
 			if i == 0 {
-				r.docsBad, r.unlawful, r.drift = bad, unl, drift
+				r.docsBad, r.unlawful, r.drift, r.sdrift = bad, unl, drift, sdrift
 			}
 			emit(r, orc, "conc")
 		}
